@@ -200,3 +200,34 @@ def validate_traces(module: str, cfg: str, records: list[dict], *, shards: int =
             raise MachineryError(f"trace validator {module} shard {i}: reject lines != bad count")
         rejects += rej
     return rejects, consumed, time.time() - t0
+
+
+def tlc_compute(module: str, items: list[dict], *, tag: str = "calc", shards: int = 8) -> dict:
+    """Run a `*Calc` module over items (each with an "id"); returns {id: printed record}."""
+    if not items:
+        return {}
+    tdir = OUT / "traces" / tag
+    if tdir.exists():
+        shutil.rmtree(tdir)
+    tdir.mkdir(parents=True)
+    shards = max(1, min(shards, (len(items) + 49) // 50))
+    parts = [items[i::shards] for i in range(shards)]
+    files = []
+    for i, part in enumerate(parts):
+        f = tdir / f"in{i}.ndjson"
+        f.write_text("".join(json.dumps(x, separators=(",", ":")) + "\n" for x in part))
+        files.append(f)
+
+    def one(i):
+        return run_tlc(module, module, workers=1, env={"TRACE_FILE": str(files[i])}, tag=f"{tag}-{i}-{os.getpid()}")
+    with ThreadPoolExecutor(max_workers=shards) as ex:
+        results = list(ex.map(one, range(shards)))
+    out = {}
+    for i, r in enumerate(results):
+        done = [p for p in r.prints if isinstance(p, dict) and "done" in p]
+        if not r.ok or len(done) != 1 or done[0]["done"] != len(parts[i]):
+            raise MachineryError(f"{module} shard {i} incomplete: " + "\n".join(r.raw.splitlines()[-20:]))
+        for p in r.prints:
+            if isinstance(p, dict) and "id" in p:
+                out[p["id"]] = p
+    return out
